@@ -781,6 +781,21 @@ impl FailSafe {
         }
     }
 
+    /// Check that the fail-safe - if it is armed - was armed by the session context
+    /// `session_mode` belongs to. A fail-safe which is not armed passes.
+    pub(crate) fn check_armed_by(&self, session_mode: &SessionMode) -> Result<(), Error> {
+        if self.is_armed() {
+            self.check_state(
+                session_mode,
+                NocFlags::empty(),
+                NocFlags::empty(),
+                NocFlags::empty(),
+            )
+        } else {
+            Ok(())
+        }
+    }
+
     fn check_state(
         &self,
         session_mode: &SessionMode,
